@@ -155,6 +155,17 @@ def mutants(s, tier):
             q = list(parts)
             q[1], q[-1] = q[-1], q[1]
             yield "swap", sep.join(q)
+    # one element of a separated list dropped together with its separator (a parameter missing from a parameter list)
+    for sep in ",$":
+        parts = s.split(sep)
+        if 3 <= len(parts) <= 12:
+            for i in range(1, len(parts)):
+                yield "dropelem", sep.join(parts[:i] + parts[i + 1 :])
+    # comma lists inside one '$' field
+    for m in re.finditer(r"[^$]*,[^$]*", s):
+        items = m.group(0).split(",")
+        for i in range(len(items)):
+            yield "dropelem", s[: m.start()] + ",".join(items[:i] + items[i + 1 :]) + s[m.end() :]
     # emptied fields (content of one field removed, separators kept)
     toks = re.split(r"([$,|:={}])", s)
     if 3 <= len(toks) <= 41:
@@ -315,6 +326,25 @@ def libpass_group(tier):
         ctx = LCtx([h])
         g.case((nm, "unaltered"))
         g.check(h.verify(hb, "pw-1") is True and h.verify(hs, "pw-1") is True, f"libpass-own:{nm}", "own hash (str / bytes) does not verify", {"hasher": nm, "hash": hs})
+        # structural edits of the string (fields emptied / cut / extended, separators doubled or dropped, numbers replaced):
+        # identify answers a bool, verify / needs_update answer or raise ValueError/TypeError, an edit never verifies unless it denotes the same record
+        for kind, m in mutants(hs, tier):
+            if kind in ("sub", "ins", "del", "trunc"):
+                continue
+            g.case((nm, kind, m))
+            w = {"hasher": "libpass." + nm, "original": hs, "mutant": m, "mutation": kind}
+            o = call(h.identify, m)
+            g.check(o[0] == "ok" and isinstance(o[1], bool), f"libpass-identify-raises:{nm}:{exc_name(o) if o[0] == 'exc' else 'nonbool'}", "identify raised / did not answer a bool", dict(w, outcome=repr(o)[:120]))
+            calls = [("needs_update", lambda: h.needs_update(m))]
+            # cost guard: the cost the string asks for is read with a plain regular expression; anything above a small cap is not evaluated
+            nums = [int(x) for x in re.findall(r"(?:rounds=|r=|\$)(\d{1,25})(?=[$,])", m)]
+            cap = 6 if "Bcrypt" in nm else 6000
+            if all(n <= cap for n in nums):
+                calls.append(("verify", lambda: h.verify(m, "pw-1")))
+            for cname, fn in calls:
+                o = call(fn)
+                if o[0] == "exc":
+                    g.check(o[2], f"libpass-internal-error:{nm}:{exc_name(o)}:{cname}", f"{cname} raised {exc_name(o)} (neither ValueError nor TypeError)", dict(w, exception=repr(o[1])[:120]))
         for ins in (b"\xff", b"\xfe", b"\x80", b"\xc3", b"A", b"\xc3\xa9"):
             for pos in list(range(0, len(hb), step)) + [len(hb)]:
                 m = hb[:pos] + ins + hb[pos:]
